@@ -107,12 +107,16 @@ def run_impl(case):
     try:
         with impl.AromRecorder() as arom, lib.quiet():
             try:
-                sampler = smod.MoleculeSampler.from_fragment_string(case['s'], **kw)
-                rec['sampler'] = sampler
-                rec['arom_init'] = len(arom.calls)
-                mol = sampler.sample(case['target'], start_fragment=case.get('start'))
+                with lib.time_limit(30):
+                    sampler = smod.MoleculeSampler.from_fragment_string(case['s'], **kw)
+                    rec['sampler'] = sampler
+                    rec['arom_init'] = len(arom.calls)
+                    mol = sampler.sample(case['target'], start_fragment=case.get('start'))
                 rec['result'] = 'ok'
                 rec['mol'] = mol
+            except lib.CallTimeout:
+                rec['result'] = 'timeout'
+                rec['message'] = 'sample() did not return within 30 s'
             except Exception as err:   # noqa: BLE001
                 rec['result'] = lib.err_class(err)
                 rec['message'] = str(err)[:160]
@@ -155,6 +159,10 @@ def run_sampler_case(ctx, suite, case, oracle=None, compare=True):
     ctx.count(suite, lib.stable_hash(fp), nontrivial=rec['result'] == 'ok' and len(rec['decisions']) > 1,
               sample={k: case[k] for k in ('s', 'poly', 'terminals', 'target', 'seed')})
     ctx.feature('sampler:' + rec['result'])
+    if rec['result'] == 'timeout':
+        # growth that never reaches the target (the quick cases grow a few dozen fragments in milliseconds)
+        ctx.fail(case, f'sample(target_weight={case["target"]}) did not return within 30 s: the growth loop does not stop')
+        return rec
     for name, detail in rec['contract']:
         ctx.contract(name, case, detail)
     if compare and not ctx.oracle_only and 'sampler' in rec:
@@ -197,8 +205,11 @@ def run_sampler_case(ctx, suite, case, oracle=None, compare=True):
             # the same sampler object asked for a second molecule: every guarantee holds for that one as well
             case2 = dict(case, second_sample_on_same_object=True)
             try:
-                with lib.quiet():
+                with lib.quiet(), lib.time_limit(30):
                     mol2 = rec['sampler'].sample(case['target'], start_fragment=case.get('start'))
+            except lib.CallTimeout:
+                ctx.fail(case2, 'a second sample() on the same sampler did not return within 30 s')
+                mol2 = None
             except Exception:   # noqa: BLE001 - another random path may legitimately run out of growth sites
                 mol2 = None
             if mol2 is not None:
@@ -243,8 +254,8 @@ def gen_case_wellformed(rng, all_atom=None):
                     if seen_ring:
                         body[j] = 'C'
                     seen_ring = True
-        order = rng.choice([1, 1, 1, 2]) if not aa else 1
-        sym = '=' if order == 2 else ''
+        order = rng.choice([1, 1, 1, 2, 0]) if not aa else rng.choice([1, 1, 1, 1, 0])
+        sym = {2: '=', 0: '.'}.get(order, '')
         lab = {'arrow': '', 'dollar': '', 'mixed': '', 'labelled': rng.choice(['a', 'b', '1', 'x2'])}[style]
         if style in ('arrow', 'labelled') or (style == 'mixed' and i % 2 == 0):
             d1, d2 = '>' + lab, '<' + lab
@@ -267,7 +278,7 @@ def gen_case_wellformed(rng, all_atom=None):
             tdesc = '$' + tlab
         else:
             tdesc = comp
-        sym = '=' if d[-1] == '2' else ''
+        sym = {'2': '=', '0': '.'}.get(d[-1], '')
         frags.append('#END=%s%s[%s]' % ('C' if aa else '[#E]', sym, tdesc))
         descs.add(tdesc + d[-1])
         if rng.random() < 0.7:
@@ -300,6 +311,11 @@ def gen_case_wellformed(rng, all_atom=None):
     case = {'kind': 'sampler', 's': '{' + ','.join(frags) + '}', 'all_atom': aa, 'poly': pr, 'fragr': fr, 'terminals': ter,
             'seed': rng.choice([0, rng.randint(0, 10 ** 6), rng.randint(0, 10 ** 6), rng.randint(1, 5)]), 'target': rng.choice([1, 3, 5, 12, 40]) + (0.5 if aa else 0),
             'start': rng.choice([None, None, 'F0'])}
+    if rng.random() < 0.06:
+        case['target'] = rng.choice([0, 0.0, -1])       # nothing is to be added: the start fragment, finished like any molecule
+    if aa and rng.random() < 0.15:
+        # a mapping weight on an atom of a fragment: it concerns the forward mapping, never the mass
+        case['s'] = case['s'].replace('=C', '=[C;w=%s]' % rng.choice(['0.5', '2', '0']), 1) if '=C' in case['s'] else case['s']
     if not aa or rng.random() < 0.3:
         case['masses'] = {('F%d' % i): rng.choice([1, 2, 10]) for i in range(nf)}
         case['masses']['END'] = rng.choice([1, 3])
